@@ -5,7 +5,7 @@ import zcklib as Z
 from props import filegen as FG
 
 PROP = 'C09'
-MODULES = ['ZckModel.Props.C09', 'ZckModel.Props.C09Scan', 'ZckModel.Props.C09Verdict', 'ZckModel.Props.C09Reads']
+MODULES = ['ZckModel.Props.C09', 'ZckModel.Props.C09Scan', 'ZckModel.Props.C09Verdict', 'ZckModel.Props.C09Reads', 'ZckModel.Props.C09After']
 ASSUMPTIONS = [
     "the target is a regular file: read() is short only at end of file",
     "codec and hash as in C02 (side table from libzstd; Lean's own SHA)",
